@@ -174,6 +174,36 @@ def start_values(rep, index, ev):
                    ".value - value = %r" % (B.norm(Aff.of(got) - v) if isinstance(got, (int, Aff)) else got,))
     rep.count("start constructions", n)
     rep.floor("start constructions", 3)
+    # the peer that receives a start as wire components derives the value by the protocol's formula, for every pair of
+    # integers (not only the pairs generate() produces -- those are C12's): otherwise the two peers disagree about the
+    # value in force.  Reference: eo-protocol, "sequence" (INIT: seq1*7 + seq2 - 13; PING: seq1 - seq2; ACCOUNT: value).
+    formulas = {"from_init_values": lambda a: a[0].scale(7) + a[1] - 13, "from_ping_values": lambda a: a[0] - a[1],
+                "from_value": lambda a: a[0]}
+    k = 0
+    for cname, cdef in sorted(sm.classes.items()):
+        for f in cdef.body:
+            if not (isinstance(f, ast.FunctionDef) and f.name in formulas):
+                continue
+            params = [a.arg for a in f.args.args]
+
+            def task(cname=cname, f=f, params=params):
+                args = [B.fresh(p_, None, None) for p_ in params]
+                o = ev.call_qual("eolib.packet.sequence_start.%s.%s" % (cname, f.name), list(args))
+                return args, Frame(ev, sm, {}).getattr(o, "value")
+            for p, st, val in B.explore(task):
+                B.set_path(p)
+                k += 1
+                inst = "%s.%s path[%s]" % (cname, f.name, _fmt(p))
+                if st != "ok":
+                    rep.ob("C13.R8 start-derived-by-the-protocol-formula", inst, False, "raises %s for some integers" % val.exc_name)
+                    continue
+                args, got = val
+                want = formulas[f.name](args)
+                ok = isinstance(got, (int, Aff)) and not isinstance(got, bool) and B.is_zero(Aff.of(got) - want)
+                rep.ob("C13.R8 start-derived-by-the-protocol-formula", inst, ok,
+                       ".value = %r, protocol formula %r" % (B.norm(Aff.of(got)) if isinstance(got, (int, Aff)) else got, B.norm(want)))
+    rep.count("start derivations", k)
+    rep.floor("start derivations", 3)
 
 
 def _refine(ev, index, m, cls, public, SF, CF, coupling):
